@@ -7,12 +7,19 @@ pub static CUR: AtomicUsize = AtomicUsize::new(0);
 pub static PEAK: AtomicUsize = AtomicUsize::new(0);
 pub static TOTAL: AtomicUsize = AtomicUsize::new(0);
 pub static ENABLED: AtomicUsize = AtomicUsize::new(0);
+pub static TRACE_BIG: AtomicUsize = AtomicUsize::new(0);
 
 pub struct Counting;
 
 unsafe impl GlobalAlloc for Counting {
     unsafe fn alloc(&self, l: Layout) -> *mut u8 {
         let p = System.alloc(l);
+        if l.size() >= (32 << 20) && TRACE_BIG.load(Relaxed) == 1 {
+            // debugging aid (VERIF_BT): where does a big allocation come from
+            TRACE_BIG.store(0, Relaxed);
+            eprintln!("allocation of {} bytes\n{}", l.size(), std::backtrace::Backtrace::force_capture());
+            TRACE_BIG.store(1, Relaxed);
+        }
         if !p.is_null() {
             let c = CUR.fetch_add(l.size(), Relaxed) + l.size();
             PEAK.fetch_max(c, Relaxed);
